@@ -2,6 +2,7 @@
 from ..run import Result
 from . import dtlib
 from .common import run_items
+from .grids import stable_hash
 from .c03 import ASSUME
 
 
@@ -12,7 +13,7 @@ def configs(ctx):
     for b in dtlib.BIORT:
         for q in dtlib.QSHIFT:
             for i, (H, W) in enumerate(sizes):
-                if ctx.quick and (hash((b, q, 'pr')) + i) % 3:
+                if ctx.quick and (stable_hash(b, q, 'pr') + i) % 3:
                     continue
                 J = 3 if max(H, W) >= 8 and q not in ('qshift_c', 'qshift_d') and b != 'near_sym_b' else 2
                 items.append((b, q, H, W, J))
